@@ -127,9 +127,9 @@ UNIT = {
     ],
     'may_throw_void': ['forest__unlinkNode'],
     'stubs': ['executable stubs (bodies in units/codecb/spec.h): one-chunk memory manager (grants the requested slots plus a symbolic padding), forest with transparent node 0 and a zero transparent edge value'],
-    'assumptions': ['BOUNDED: unpacked nodes with at most %d entries and indexes below %d; multi-terminal and EV(long) layouts; not counted as proved' % (NB, NB + 1)],
+    'assumptions': ['fillUnpacked is called on a scratch node sized to the level (as unpacked_node::initFromNode does)', 'BOUNDED: unpacked nodes with at most %d entries and indexes below %d; multi-terminal and EV(long) layouts; not counted as proved' % (NB, NB + 1)],
     'jobs': [
-        job('unpack_roundtrip_mt', ['C99']),
-        job('unpack_roundtrip_ev', ['C99'], defines=['CB_EV'], tier='thorough', timeout=7200),
+        job('unpack_roundtrip_mt', ['C02', 'C12']),
+        job('unpack_roundtrip_ev', ['C02', 'C12'], defines=['CB_EV'], tier='thorough', timeout=7200),     # ~3 min
     ],
 }
